@@ -5,8 +5,10 @@ from vlib import common as C, coapgen as G
 LEAN_MODULES = ["CoapVerif.Props.C02"]
 NAMESPACE = "Coap.C02"
 REQUIRED_THEOREMS = ["parse_never_oob", "walk_never_oob", "rejected_never_dispatched", "dispatched_is_reference_decoding",
-                     "malformed_reply_at_most_reset", "wrong_version_silently_ignored"]
-RULE = ("hparse: byte strings (blind random at lengths 0..64 and a few long ones; valid encodings; 1-4 field-level mutations of valid "
+                     "malformed_reply_at_most_reset", "wrong_version_silently_ignored",
+                     "rejected_never_dispatched_session", "oversize_datagram_never_dispatched"]
+RULE = ("hseq: sequences of 1-8 hostile datagrams (targeted at the state: matching token/mid/path, hostile Block/Observe/ETag/OSCORE option values; field-mutated; random) delivered to a live server (idle / holding an observation / holding a partial Block1 body) or to a client with an outstanding request, from the peer's own or a foreign address, followed by a canary request that must be answered; "
+        "hparse: byte strings (blind random at lengths 0..64 and a few long ones; valid encodings; 1-4 field-level mutations of valid "
         "encodings) through the receive gate for udp/tcp/ws at log levels 0, 4, 7, 8 under ASan+UBSan with a null log handler so that "
         "the debug dump in coap_pdu_parse_opt and coap_show_pdu walk the PDU again; non-trivial = distinct input that is not a blind "
         "string shorter than a header")
@@ -19,8 +21,22 @@ ASSUMPTIONS = ["termination = totality of the Lean model functions (fuel bounded
 RUN_KW = {"timeout": 600}
 
 
+def extract(ctx):
+    from vlib import tables
+    d = tables.extract_consts()
+    return ["Generated.Consts (COAP_DEFAULT_MTU=%d)" % d["COAP_DEFAULT_MTU"]]
+
+
 def harness(ctx):
     return C.build_harness("hostile", C.build_libcoap())
+
+
+def harness_seq(ctx):
+    from vlib import simlib
+    return simlib.build_sim_harness("hostile_seq")
+
+
+HARNESS_FOR_OP = {"hparse": harness, "hseq": harness_seq}
 
 
 def hx(b):
@@ -49,13 +65,91 @@ def generate(ctx, escalate=False):
                 for _ in range(rng.choice([1, 1, 2, 3, 4])):
                     b = G.mutate(rng, b)
         out.append("hparse %s %d %s" % (proto, lvl, hx(b)))
+    out += gen_sequences(ctx, (6000 if ctx.thorough() else 600) * (2 if escalate else 1))
     return out
+
+
+SCENARIOS = ["idle", "obs", "blk", "cli"]
+
+
+def targeted(rng, scen):
+    """a datagram aimed at the state the scenario set up: matching token/mid/paths, hostile option values"""
+    tok = rng.choice([b"\xab\xcd", b"\xab\xcd", b"", G.rbytes(rng, rng.randint(1, 8))])
+    mid = rng.choice([0x1000, 0x1001, 0x0fff, rng.randint(0, 0xFFFF)])
+    typ = rng.randint(0, 3)
+    uint = lambda: G.rbytes(rng, rng.choice([0, 1, 2, 3, 3, 4]))
+    if scen == "cli":
+        code = rng.choice([69, 68, 65, 95, 132, 128, 160, 0, 0, 224, 1, rng.randint(0, 255)])
+        opts = []
+        for num in rng.sample([6, 4, 12, 14, 23, 27, 28, 60, 252, 258, 9], rng.randint(0, 4)):
+            opts.append((num, uint() if num != 9 else G.rbytes(rng, rng.randint(0, 12))))
+    else:
+        code = rng.choice([1, 2, 3, 4, 5, 6, 7, 0, 31, rng.randint(0, 255)])
+        path = rng.choice([b"r", b"o", b"b", b"b", b".well-known", b"x"])
+        opts = [(11, path)]
+        if path == b".well-known":
+            opts.append((11, b"core"))
+        for num in rng.sample([6, 4, 1, 5, 12, 14, 17, 19, 23, 27, 28, 31, 60, 252, 258, 292, 9, 15, 35, 39, 16, 3, 7], rng.randint(0, 5)):
+            opts.append((num, uint() if num not in (9, 15, 35, 39, 3) else G.rbytes(rng, rng.randint(0, 12))))
+        if rng.random() < 0.15:
+            opts.append((rng.choice([2, 10, 13, 29, 65001, 65535]), G.rbytes(rng, rng.randint(0, 4))))   # unknown, some critical
+    opts.sort(key=lambda o: o[0])
+    pl = b"" if rng.random() < 0.5 else G.rbytes(rng, rng.choice([1, 15, 16, 17, 32, 64]))
+    if code == 0 and rng.random() < 0.6:
+        return G.encode("udp", typ, 0, mid, b"", [], b"")
+    return G.encode("udp", typ, code, mid, tok, opts, pl)
+
+
+def gen_sequences(ctx, n):
+    rng = ctx.rng
+    out = []
+    for i in range(n):
+        scen = rng.choice(SCENARIOS)
+        ds = []
+        for _ in range(rng.choice([1, 2, 3, 5, 8])):
+            c = rng.random()
+            if c < 0.45:
+                b = targeted(rng, scen)
+            elif c < 0.8:
+                b = targeted(rng, scen)
+                for _ in range(rng.choice([1, 1, 2, 3])):
+                    b = G.mutate(rng, b)
+            elif c < 0.9:
+                b = G.encode("udp", *G.gen_msg(rng))
+            else:
+                b = G.rbytes(rng, rng.choice([0, 1, 3, 4, 5, 8, 13, 40]))
+            if len(b) > 1400:          # a datagram longer than libcoap's receive buffer is cut by the read itself
+                b = b[:rng.choice([4, 5, 12, 40])]
+            ds.append(hx(b))
+        out.append("hseq %s %d %s %s" % (scen, rng.choice([0, 7, 8]), rng.choice(["same", "same", "other"]), ";".join(ds)))
+    return out
+
+
+def judge_seq(ctx, c):
+    i, m = c["impl"], c["model"]
+    it, mt = i.split(), (m or "").split()
+    if len(it) != len(mt):
+        return ("tie", "different number of observations: %s / %s" % (i[:150], (m or "")[:150]))
+    for k, (a, b) in enumerate(zip(it, mt)):
+        if b == "dispatch":
+            continue                     # well-formed: the protocol layer's reaction belongs to C07/C10
+        if a != b:
+            if a.startswith("canary="):
+                return ("spec", "after the hostile datagrams the endpoint no longer answers a well-formed request")
+            if not a.startswith("h0:"):
+                return ("spec", "datagram %d is rejected by the specification but an application handler ran: %s" % (k, a))
+            if a.count(":") >= 2 and not a.split(":")[2].startswith("R"):
+                return ("spec", "datagram %d is malformed but drew a reply other than a Reset: %s" % (k, a))
+            return ("tie", "datagram %d: implementation %s, model %s" % (k, a, b))
+    return None
 
 
 def judge(ctx, c):
     i, m = c["impl"], c["model"]
     if i is None or i.startswith("crash"):
         return ("spec", "the real code aborted on this input: %s" % i)
+    if c["input"].startswith("hseq"):
+        return judge_seq(ctx, c)
     if i != m:
         if i.startswith("dispatch") and not (m or "").startswith("dispatch"):
             return ("spec", "input the specification rejects was handed to the protocol layer: %s" % i[:150])
@@ -65,11 +159,13 @@ def judge(ctx, c):
 
 def nontrivial(c):
     w = c["input"].split()
-    return len(w[3]) >= 8
+    return len(w[-1]) >= 8
 
 
 def classify(c):
     w = c["input"].split()
+    if w[0] == "hseq":
+        return "seq:%s:%s" % (w[1], w[3])
     return "%s:lvl%s:%s" % (w[1], w[2], (c["model"] or "?").split()[0])
 
 
@@ -78,6 +174,8 @@ def search(ctx, tie_breaks, proof):
     out = []
     for c in tie_breaks[:50]:
         w = c["input"].split()
+        if w[0] != "hparse":
+            continue
         b = bytes.fromhex(w[3]) if w[3] != "-" else b""
         for _ in range(200):
             out.append("hparse %s %s %s" % (w[1], w[2], hx(G.mutate(rng, b))))
